@@ -651,14 +651,12 @@ func (ex *Exec) awaitRelease(h *worker, k int) (string, bool) {
 			}
 			exists, full := ex.m.VerifSlotFull(kname)
 			dump := Dump()
-			inSelect := 0
+			states := ""
 			for _, id := range waiters {
-				if goroutineInState(dump, ex.workers[id].gid, "select") || goroutineInState(dump, ex.workers[id].gid, "chan send") {
-					inSelect++
-				}
+				states += fmt.Sprintf(" w%d=[%s]", id, goroutineState(dump, ex.workers[id].gid))
 			}
-			ex.failDump(fmt.Sprintf("lost wake-up: w%d released key %s (entry exists=%v, slot full=%v) and every other worker is parked, but none of the queued workers %v acquired it within %v; %d of them are still blocked in select according to the goroutine dump",
-				h.id, kname, exists, full, waiters, ex.watchdog, inSelect), dump)
+			ex.failDump(fmt.Sprintf("lost wake-up: w%d released key %s (entry exists=%v, slot full=%v) and every other worker is parked, but none of the queued workers %v acquired it within %v; their goroutines are still blocked according to the goroutine dump:%s",
+				h.id, kname, exists, full, waiters, ex.watchdog, states), dump)
 			return "lost-wakeup", nondet
 		}
 		switch {
@@ -1030,6 +1028,16 @@ func filterDump(dump string, ids map[uint64]bool) string {
 	return strings.Join(out, "\n\n")
 }
 
-func goroutineInState(dump string, gid uint64, state string) bool {
-	return strings.Contains(dump, fmt.Sprintf("goroutine %d [%s", gid, state))
+// goroutineState returns the wait state ("select", "chan receive", "running", ...) of goroutine gid in dump.
+func goroutineState(dump string, gid uint64) string {
+	hdr := fmt.Sprintf("goroutine %d [", gid)
+	i := strings.Index(dump, hdr)
+	if i < 0 {
+		return "not in dump (exited)"
+	}
+	rest := dump[i+len(hdr):]
+	if j := strings.IndexAny(rest, "]\n"); j >= 0 {
+		return rest[:j]
+	}
+	return "?"
 }
